@@ -177,6 +177,9 @@ fold_h!(fold_1x3, 2, 3, [1, 3], 6);
 // @harness props=C05 tier=quick group=f64 bounds=shape=[2,1,2],cells=0..7,fill={nan,0,-1,inf} timeout=1200
 fold_h!(fold_2x1x2, 3, 4, [2, 1, 2], 7);
 
+// @harness props=C05 tier=quick group=f64 bounds=shape=[1,2,3],cells=0..7,fill={nan,0,-1,inf} timeout=1200
+fold_h!(fold_1x2x3, 3, 6, [1, 2, 3], 9);
+
 // @harness props=C05 tier=quick group=f64 bounds=shape=[2,3,2],cells=0..7,fill={nan,0,-1,inf} timeout=1200
 fold_h!(fold_2x3x2, 3, 12, [2, 3, 2], 15);
 
@@ -224,19 +227,22 @@ fold_h!(fold_3x1x2x2, 4, 12, [3, 1, 2, 2], 15);
 /// With fill 0: total mass preserved, folding twice = folding once, and the folded spectrum is
 /// identical whether or not the input is first mirrored (REF/ALT swapped).
 fn fold_laws_case<const R: usize, const N: usize>(shape: [usize; R]) {
-    let d: [u8; N] = small::<N>(8);
+    let d: [u8; N] = small::<N>(4);
     let scs = scs_of(shape, &d);
     let once = scs.fold().into_spectrum(0.0);
-    // mass (doubled so that diagonal halves stay integral)
-    let mut mass2 = 0.0f64;
+    // mass: every folded cell is a multiple of 1/2, so twice the cell converts to an integer exactly
+    let mut mass2 = 0u32;
     let mut total = 0u32;
     let mut p = 0;
     while p < N {
-        mass2 += 2.0 * once.inner().as_slice()[p];
+        let c2 = 2.0 * once.inner().as_slice()[p];
+        let i = c2 as u32;
+        assert!(i as f64 == c2);
+        mass2 += i;
         total += d[p] as u32;
         p += 1;
     }
-    assert!(mass2 == (2 * total) as f64);
+    assert!(mass2 == 2 * total);
     // idempotent
     let twice = once.fold().into_spectrum(0.0);
     let mut p = 0;
@@ -277,32 +283,29 @@ macro_rules! fold_laws_h {
 }
 
 //@@BEGIN FOLD_LAWS_CASES@@
-// @harness props=C05 tier=quick group=f64 bounds=shape=[4],cells=0..7,fill=0;mass,idempotence,polarity timeout=1200
+// @harness props=C05 tier=quick group=f64 bounds=shape=[4],cells=0..3,fill=0;mass,idempotence,polarity timeout=1200
 fold_laws_h!(fold_laws_4, 1, 4, [4], 7);
 
-// @harness props=C05 tier=quick group=f64 bounds=shape=[5],cells=0..7,fill=0;mass,idempotence,polarity timeout=1200
+// @harness props=C05 tier=quick group=f64 bounds=shape=[5],cells=0..3,fill=0;mass,idempotence,polarity timeout=1200
 fold_laws_h!(fold_laws_5, 1, 5, [5], 8);
 
-// @harness props=C05 tier=quick group=f64 bounds=shape=[2,3],cells=0..7,fill=0;mass,idempotence,polarity timeout=1200
+// @harness props=C05 tier=quick group=f64 bounds=shape=[2,3],cells=0..3,fill=0;mass,idempotence,polarity timeout=1200
 fold_laws_h!(fold_laws_2x3, 2, 6, [2, 3], 9);
 
-// @harness props=C05 tier=quick group=f64 bounds=shape=[3,3],cells=0..7,fill=0;mass,idempotence,polarity timeout=1200
+// @harness props=C05 tier=quick group=f64 bounds=shape=[1,3],cells=0..3,fill=0;mass,idempotence,polarity timeout=1200
+fold_laws_h!(fold_laws_1x3, 2, 3, [1, 3], 6);
+
+// @harness props=C05 tier=thorough group=f64 bounds=shape=[3,3],cells=0..3,fill=0;mass,idempotence,polarity timeout=1200
 fold_laws_h!(fold_laws_3x3, 2, 9, [3, 3], 12);
 
-// @harness props=C05 tier=quick group=f64 bounds=shape=[2,2,2],cells=0..7,fill=0;mass,idempotence,polarity timeout=1200
+// @harness props=C05 tier=thorough group=f64 bounds=shape=[2,2,2],cells=0..3,fill=0;mass,idempotence,polarity timeout=1200
 fold_laws_h!(fold_laws_2x2x2, 3, 8, [2, 2, 2], 11);
 
-// @harness props=C05 tier=thorough group=f64 bounds=shape=[2,3,2],cells=0..7,fill=0;mass,idempotence,polarity timeout=1200
+// @harness props=C05 tier=thorough group=f64 bounds=shape=[2,3,2],cells=0..3,fill=0;mass,idempotence,polarity timeout=1200
 fold_laws_h!(fold_laws_2x3x2, 3, 12, [2, 3, 2], 15);
 
-// @harness props=C05 tier=thorough group=f64 bounds=shape=[3,4],cells=0..7,fill=0;mass,idempotence,polarity timeout=1200
+// @harness props=C05 tier=thorough group=f64 bounds=shape=[3,4],cells=0..3,fill=0;mass,idempotence,polarity timeout=1200
 fold_laws_h!(fold_laws_3x4, 2, 12, [3, 4], 15);
-
-// @harness props=C05 tier=thorough group=f64 bounds=shape=[2,2,2,2],cells=0..7,fill=0;mass,idempotence,polarity timeout=1200
-fold_laws_h!(fold_laws_2x2x2x2, 4, 16, [2, 2, 2, 2], 19);
-
-// @harness props=C05 tier=thorough group=f64 bounds=shape=[1,3],cells=0..7,fill=0;mass,idempotence,polarity timeout=1200
-fold_laws_h!(fold_laws_1x3, 2, 3, [1, 3], 6);
 
 //@@END FOLD_LAWS_CASES@@
 
@@ -603,3 +606,144 @@ marginalize_validation_h!(marginalize_validation_len4, 4, 10);
 marginalize_validation_h!(marginalize_validation_len5, 5, 10);
 
 //@@END MARGINALIZE_VALIDATION_CASES@@
+
+// ------------------------------------------------------------------------------------------
+// C03 projection: structure of Spectrum::project (the pmf is abstracted by a pure table H)
+// ------------------------------------------------------------------------------------------
+
+fn h_stub(size: u64, successes: u64, draws: u64, observed: u64) -> f64 {
+    ((size + 2 * successes + 3 * draws + 4 * observed) % 5) as f64
+}
+#[cfg(not(kv_replay))]
+fn h_ref(size: usize, successes: usize, draws: usize, observed: usize) -> f64 {
+    ((size + 2 * successes + 3 * draws + 4 * observed) % 5) as f64
+}
+/// native replay: no stub is applied, so the reference is the exact hypergeometric probability
+#[cfg(kv_replay)]
+fn h_ref(size: usize, successes: usize, draws: usize, observed: usize) -> f64 {
+    fn c(n: usize, k: usize) -> u128 {
+        if k > n {
+            return 0;
+        }
+        let mut r: u128 = 1;
+        for i in 0..k {
+            r = r * (n - i) as u128 / (i + 1) as u128;
+        }
+        r
+    }
+    if observed > draws || successes > size || draws > size {
+        return 0.0;
+    }
+    (c(successes, observed) * c(size - successes, draws - observed)) as f64 / c(size, draws) as f64
+}
+#[cfg(not(kv_replay))]
+fn same(a: f64, b: f64) -> bool {
+    a == b
+}
+#[cfg(kv_replay)]
+fn same(a: f64, b: f64) -> bool {
+    close(a, b)
+}
+
+/// out[k'] = Σ_k x[k] · Π_j H(n_j, k_j, m_j, k'_j)   (n_j = source length - 1, m_j = target length - 1)
+fn project_case<const R: usize, const N: usize, const M: usize>(from: [usize; R], to: [usize; R]) {
+    let d: [u8; N] = small::<N>(4);
+    let scs = scs_of(from, &d);
+    let mut tv = Vec::with_capacity(R);
+    let mut j = 0;
+    while j < R {
+        tv.push(to[j]);
+        j += 1;
+    }
+    let p = match scs.project(Shape(tv)) {
+        Ok(p) => p,
+        Err(_) => {
+            assert!(false);
+            return;
+        }
+    };
+    assert!(shape_is(&p, &to));
+    let out = p.inner().as_slice();
+    assert!(out.len() == M);
+    let mut q = 0;
+    while q < M {
+        let kq = unrank(&to, q);
+        let mut acc = 0.0f64;
+        let mut s = 0;
+        while s < N {
+            let ks = unrank(&from, s);
+            let mut w = 1.0f64;
+            let mut j = 0;
+            while j < R {
+                w *= h_ref(from[j] - 1, ks[j], to[j] - 1, kq[j]);
+                j += 1;
+            }
+            acc += d[s] as f64 * w;
+            s += 1;
+        }
+        assert!(same(out[q], acc));
+        q += 1;
+    }
+    kani::cover!(true, "reached end");
+    core::mem::forget(p);
+    core::mem::forget(scs);
+}
+
+macro_rules! project_h {
+    ($name:ident, $r:literal, $n:literal, $m:literal, $from:expr, $to:expr, $unw:literal) => {
+        #[kani::proof]
+        #[kani::unwind($unw)]
+        #[kani::stub(crate::utils::hypergeometric_pmf, h_stub)]
+        fn $name() {
+            project_case::<$r, $n, $m>($from, $to)
+        }
+    };
+}
+
+//@@BEGIN PROJECT_CASES@@
+// @harness props=C03,C02 tier=quick group=f64 bounds=source=[3],target=[1],cells=0..3,pmf=table-stub timeout=1800
+project_h!(project_structure_3_to_1, 1, 3, 1, [3], [1], 6);
+
+// @harness props=C03,C02 tier=quick group=f64 bounds=source=[3],target=[2],cells=0..3,pmf=table-stub timeout=1800
+project_h!(project_structure_3_to_2, 1, 3, 2, [3], [2], 6);
+
+// @harness props=C03,C02 tier=quick group=f64 bounds=source=[3],target=[3],cells=0..3,pmf=table-stub timeout=1800
+project_h!(project_structure_3_to_3, 1, 3, 3, [3], [3], 6);
+
+// @harness props=C03,C02 tier=quick group=f64 bounds=source=[5],target=[3],cells=0..3,pmf=table-stub timeout=1800
+project_h!(project_structure_5_to_3, 1, 5, 3, [5], [3], 8);
+
+// @harness props=C03,C02 tier=thorough group=f64 bounds=source=[7],target=[4],cells=0..3,pmf=table-stub timeout=1800
+project_h!(project_structure_7_to_4, 1, 7, 4, [7], [4], 10);
+
+// @harness props=C03,C02 tier=quick group=f64 bounds=source=[2],target=[1],cells=0..3,pmf=table-stub timeout=1800
+project_h!(project_structure_2_to_1, 1, 2, 1, [2], [1], 5);
+
+// @harness props=C03,C02 tier=quick group=f64 bounds=source=[3,2],target=[2,2],cells=0..3,pmf=table-stub timeout=1800
+project_h!(project_structure_3x2_to_2x2, 2, 6, 4, [3, 2], [2, 2], 9);
+
+// @harness props=C03,C02 tier=quick group=f64 bounds=source=[2,3],target=[2,2],cells=0..3,pmf=table-stub timeout=1800
+project_h!(project_structure_2x3_to_2x2, 2, 6, 4, [2, 3], [2, 2], 9);
+
+// @harness props=C03,C02 tier=thorough group=f64 bounds=source=[3,3],target=[2,3],cells=0..3,pmf=table-stub timeout=1800
+project_h!(project_structure_3x3_to_2x3, 2, 9, 6, [3, 3], [2, 3], 12);
+
+// @harness props=C03,C02 tier=quick group=f64 bounds=source=[3,3],target=[1,1],cells=0..3,pmf=table-stub timeout=1800
+project_h!(project_structure_3x3_to_1x1, 2, 9, 1, [3, 3], [1, 1], 12);
+
+// @harness props=C03,C02 tier=thorough group=f64 bounds=source=[3,3],target=[3,3],cells=0..3,pmf=table-stub timeout=1800
+project_h!(project_structure_3x3_to_3x3, 2, 9, 9, [3, 3], [3, 3], 12);
+
+// @harness props=C03,C02 tier=quick group=f64 bounds=source=[2,2,2],target=[2,1,2],cells=0..3,pmf=table-stub timeout=1800
+project_h!(project_structure_2x2x2_to_2x1x2, 3, 8, 4, [2, 2, 2], [2, 1, 2], 11);
+
+// @harness props=C03,C02 tier=thorough group=f64 bounds=source=[2,3,2],target=[2,2,1],cells=0..3,pmf=table-stub timeout=1800
+project_h!(project_structure_2x3x2_to_2x2x1, 3, 12, 4, [2, 3, 2], [2, 2, 1], 15);
+
+// @harness props=C03,C02 tier=thorough group=f64 bounds=source=[3,2,3],target=[2,2,2],cells=0..3,pmf=table-stub timeout=1800
+project_h!(project_structure_3x2x3_to_2x2x2, 3, 18, 8, [3, 2, 3], [2, 2, 2], 21);
+
+// @harness props=C03,C02 tier=thorough group=f64 bounds=source=[2,2,2,2],target=[1,2,1,2],cells=0..3,pmf=table-stub timeout=1800
+project_h!(project_structure_2x2x2x2_to_1x2x1x2, 4, 16, 4, [2, 2, 2, 2], [1, 2, 1, 2], 19);
+
+//@@END PROJECT_CASES@@
